@@ -171,6 +171,16 @@ def make_awaiting(ip, kind, buf_n):
     return mk(ip, T.Obj(P._ReadUntil, sep=T.Const(SBytes.lit(SEP)), max_bytes=T.Opt(T.Int(1))), 'awaiting')
 
 
+def feed_roles():
+    """(read position, local alias of the parser's buffer) of Parser.feed, by role"""
+    from pyvc.source import Roles
+    r = Roles(P.Parser.feed)
+    pos = [x for x in r.while_test_names(0) if x not in ('len', 'data')]
+    if not pos:
+        r._fail('the read position')
+    return pos[0], r.assigned_from('self._buffer')
+
+
 @contract('lomond.parser.Parser.feed', serves=['C01', 'C02', 'C05', 'C10', 'C19'])
 class ParserFeed(ProducerContract):
     body_only = True
@@ -267,7 +277,7 @@ class ParserFeed(ProducerContract):
             if st.ghost.get('loop0_entered') is None and False:
                 return
             data = ip.env.vars.get('data', a.data)
-            pos = ip.env.vars.get('pos', 0)
+            pos = ip.env.vars.get(feed_roles()[0], 0)
             for n, f in self.tile(ip, data, pos):
                 st.oblige('exhausted:' + n, f, tags=('C01', 'C02'))
             st.oblige('exhausted:all-of-data-was-consumed', iv(pos) == ip.bytes_of(data).n, tags=('C01', 'C18'))
@@ -285,12 +295,12 @@ class ParserFeed(ProducerContract):
         def inv0(ip):
             st = ip.st
             a = ip.args
-            data, pos = ip.env.vars['data'], ip.env.vars['pos']
+            pos_name, buf_name = feed_roles()
+            data, pos = ip.env.vars['data'], ip.env.vars[pos_name]
             d = ip.bytes_of(data)
             out = [('position-in-range', And(iv(pos) >= 0, iv(pos) <= d.n), ('C01',))] + \
                 [(n, f, ('C01', 'C02')) for n, f in contract_self.tile(ip, data, pos)] + [
-                   ('local-buffer-is-the-parsers-buffer', BoolVal(ip.env.vars['_buffer'] == st.get(a.self, '_buffer') if False else
-                                                                 (isinstance(ip.env.vars['_buffer'], MRef) and ip.env.vars['_buffer'].ident == st.get(a.self, '_buffer').ident)))]
+                   ('local-buffer-is-the-parsers-buffer', BoolVal(isinstance(ip.env.vars[buf_name], MRef) and ip.env.vars[buf_name].ident == st.get(a.self, '_buffer').ident))]
             out += [(n, f, ('C01', 'C02')) for n, f in RI(ip, a.self)]
             aw = st.get(a.self, '_awaiting')
             out.append(('an-awaitable-is-pending', BoolVal(isinstance(aw, ORef) and issubclass(st.obj(aw).cls, P._Awaitable))))
@@ -338,7 +348,7 @@ class ParserFeed(ProducerContract):
                 return True
             return [('heap', a.self, '_awaiting', T.Const(None)), ('ghost', 'aw_havoc', new_aw)]
         if k == 0:
-            return LoopSpec(inv=inv0, modifies=mods0, locals={'data': T.Bytes(BYTES), 'pos': T.Int(0), 'remaining': T.Int,
+            return LoopSpec(inv=inv0, modifies=mods0, locals={'data': T.Bytes(BYTES), feed_roles()[0]: T.Int(0), 'remaining': T.Int,
                                                               'chunk': T.Const(None), 'chunk_size': T.Int, 'sep': T.Const(None),
                                                               'sep_index': T.Int, 'error': T.Const(None)})
         if k == 1:
